@@ -16,6 +16,8 @@ namespace hv
     {
         using B2 = TSB<"HvB2", Field<"a", TS<Int>>, Field<"b", TS<Int>>>;
         using BS = TSB<"HvBS", Field<"a", TS<Int>>, Field<"s", TSS<Int>>>;
+        using BL = TSB<"HvBL", Field<"a", TS<Int>>, Field<"l", TSL<TS<Int>, 2>>>;   // composite fields that can be partially valid
+        using BB = TSB<"HvBB", Field<"a", TS<Int>>, Field<"q", B2>>;
 
         struct WOp { std::string kind; std::string arg; };
         inline std::map<long long, std::map<long long, std::vector<WOp>>> g_wscript;   // writer id -> offset -> ops
